@@ -1,0 +1,16 @@
+//go:build verif
+
+package storage
+
+// Contracts for the verif build tag (comment-only; see /verif/DESIGN.md).
+
+// Operations of the layered store as seen by the trie code (C11): only their frame is
+// used there. Their functional contracts belong to C09.
+//@ func (*MemCachedStore).Put
+//@ assumed
+//@ pure
+//@ requires s != nil
+//@ func (*MemCachedStore).Delete
+//@ assumed
+//@ pure
+//@ requires s != nil
